@@ -84,9 +84,9 @@ def check(ctx, rep):
         for n in walk_own(m.node):
             if isinstance(n, ast.Call) and isinstance(n.func, ast.Attribute):
                 if n.func.attr in ('serialize_start', 'serialize_end') and norm_stmt(n.func.value) == 'self':
-                    order.append((n.lineno, 'serialize'))
+                    order.append((n.order, 'serialize'))
                 if n.func.attr.startswith('pop_'):
-                    order.append((n.lineno, 'pop'))
+                    order.append((n.order, 'pop'))
         order.sort()
         kinds = [k for _, k in order]
         ok = kinds.count('serialize') == 2 and 'pop' in kinds and kinds.index('pop') >= 2
